@@ -625,7 +625,7 @@ fn check_bytes_literal(lit: &str) -> Option<String> {
 fn bytes_literals() -> Vec<String> {
   let mut out = vec![];
   let hexparts = ["0f", "0F", "a", "", "g1", "00ff"];
-  let seps = ["", " ", "\n", " ; c\n", "\t", ";\n", "; 0f\n"];
+  let seps = ["", " ", "\n", " ; c\n", "\t", ";\n", "; 0f\n", " ; a; b\n", ";;\n", "\r\n", " ;\u{e9} \"q\"\n"];
   for a in hexparts {
     for s1 in seps {
       for b2 in hexparts {
